@@ -138,7 +138,11 @@ func valueA(it *simdjson.Iter, typ simdjson.Type, b *budget) (abs.Value, error) 
 		ai := arr.Iter()
 		for {
 			b.step()
+			pk := ai.PeekNext()
 			t := ai.Advance()
+			if pk != t {
+				return abs.Value{}, fmt.Errorf("PeekNext announced %v but Advance delivered %v", pk, t)
+			}
 			if t == simdjson.TypeNone {
 				break
 			}
@@ -159,7 +163,11 @@ func readA(pj *simdjson.ParsedJson) (out []abs.Value, err error) {
 	it := pj.Iter()
 	for {
 		b.step()
+		pk := it.PeekNext()
 		t := it.Advance()
+		if pk != t {
+			return nil, fmt.Errorf("PeekNext announced %v but Advance delivered %v (top level)", pk, t)
+		}
 		if t == simdjson.TypeNone {
 			return out, nil
 		}
@@ -295,7 +303,11 @@ func readC(pj *simdjson.ParsedJson) (out []abs.Value, err error) {
 	}
 	for {
 		b.step()
+		ptag := it.PeekNextTag()
 		tag := it.AdvanceInto()
+		if ptag != tag {
+			return nil, fmt.Errorf("PeekNextTag announced %v but AdvanceInto delivered %v", ptag, tag)
+		}
 		switch tag {
 		case simdjson.TagEnd:
 			if len(stack) != 0 || inRoot {
